@@ -588,15 +588,14 @@ def run_stream_b(ctx, n: int, fields: List[str]):
         if "bad" in m or "bad" in s:
             continue
         key = "process:" + json.dumps(mds, sort_keys=True, ensure_ascii=False)
-        if "err" in r and r["err"] != "ValueError":
-            ctx.violation(key=key, what=f"process_metadata raised {r['err']}; the only documented refusal is ValueError", case={"stream": "B", "mds": mds}, observed=r,
-                          how="func_adl_xAOD.common.meta_data.process_metadata(case['mds'])")
-        elif not s.get("holds", False):
+        if not s.get("holds", False):
             ctx.violation(key=key, what="process_metadata violates the block specification: " + str(s.get("why")), case={"stream": "B", "mds": mds}, observed=r,
                           how="func_adl_xAOD.common.meta_data.process_metadata(case['mds'])")
-        canon_m = {"ok": m["ok"]} if "ok" in m else {"err": "ValueError"}
-        if canon_m != r:
-            ctx.disagreement("process_metadata", {"mds": mds}, canon_m, r)
+        # any exception is a refusal: the class (ValueError today) is not part of the property
+        canon_m = {"ok": m["ok"]} if "ok" in m else {"refused": True}
+        canon_r = {"ok": r["ok"]} if "ok" in r else {"refused": True}
+        if canon_m != canon_r:
+            ctx.disagreement("process_metadata", {"mds": mds}, canon_m, canon_r)
 
 
 def pipeline_case(ctx, base: Baseline, backend: str, mds: List[Dict[str, Any]], query: str) -> Dict[str, Any]:
@@ -624,9 +623,7 @@ def judge_pipeline(ctx, c: Dict[str, Any], m: Dict[str, Any], s: Dict[str, Any],
     key = "package:" + c["backend"] + ":" + json.dumps(c["mds"], sort_keys=True, ensure_ascii=False)
     how = "ds.MetaData(m) for m in case['mds'] in order, .Select(case['query']).value(); exe = <backend>_executor(); exe.write_cpp_files(exe.apply_ast_transformations(ast), dir)"
     v = None
-    if "err" in r and r["err"] != "ValueError":
-        v = {"key": key, "what": f"the executor raised {r['err']}; the only documented refusal is ValueError", "case": case, "observed": {"err": r["err"]}, "how": how}
-    elif not s.get("holds", False):
+    if not s.get("holds", False):
         why = str(s.get("why"))
         obs: Dict[str, Any] = {"err": r["err"]} if "err" in r else {f: t for f, t in r["files"].items() if f in why}
         v = {"key": key, "what": "generated package violates the specification: " + why, "case": case, "observed": obs, "how": how}
@@ -726,8 +723,6 @@ def replay_input(ctx, inp: Dict[str, Any], base: Optional[Baseline], fields: Lis
         r = real_process(inp["mds"], fields)
         mm = [md_to_model(m) for m in inp["mds"]]
         s = ctx.driver(DRIVER, [{"op": "spec_process", "mds": mm, "outcome": {"ok": r["ok"]} if "ok" in r else {"refused": True}}])[0]
-        if "err" in r and r["err"] != "ValueError":
-            return 1, {"what": f"process_metadata raised {r['err']}", "case": inp, "observed": r}
         if s.get("holds"):
             return 0, None
         return 1, {"what": "process_metadata violates the block specification: " + str(s.get("why")), "case": inp, "observed": r}
@@ -780,6 +775,17 @@ def run(ctx):
     run_stream_b(ctx, sizes["B"], fields)
     ctx.check_time()
     run_stream_c(ctx, sizes["C"], fields)
+    # present the first failing input in its smallest form
+    if ctx.violations and isinstance(ctx.violations[0].get("case"), dict) and "stream" in ctx.violations[0]["case"]:
+        try:
+            v0 = ctx.violations[0]
+            base = Baseline(ctx, fields)
+            small = shrink(ctx, v0["case"], base, fields)
+            rc, v = replay_input(ctx, small, base, fields)
+            if v is not None and small != v0["case"]:
+                ctx.violations[0] = {**v0, "case": small, "what": v["what"], "observed": v.get("observed"), "unshrunk_case": v0["case"]}
+        except Exception as e:  # shrinking is a convenience
+            ctx.notes.append(f"shrinking raised {type(e).__name__}: {e}")
     ctx.extra_cov["exhaustive"] = False
     ctx.extra_cov["streams"] = sizes
     ctx.extra_cov["generated_from_source"] = {k: {"dir": e["dir"], "files": e["files"]} for k, e in ctx.c14_templates.backends.items()}
@@ -826,7 +832,7 @@ def search(ctx, broken):
     for m, r, s in zip(t_mds, rs, ans):
         if "bad" in s:
             break
-        if not s.get("holds", False) or ("err" in r and r["err"] != "ValueError"):
+        if not s.get("holds", False):
             inp = shrink(ctx, {"stream": "B", "mds": m}, base, fields)
             rc, v = replay_input(ctx, inp, base, fields)
             if v is not None:
